@@ -510,6 +510,20 @@ class PiecewiseConstantCoalescentGrid(AbstractCoalescentDistribution):
 
     def sufficient_statistics(self, node_heights: torch.Tensor):
         node_mask_sorted, lchoose2, durations = self._sorted_terms(node_heights)
+        if node_mask_sorted.dim() > 1:
+            statistics = [
+                self._sufficient_statistics(
+                    node_mask_sorted[i], lchoose2[i], durations[i]
+                )
+                for i in range(node_mask_sorted.shape[-2])
+            ]
+            return torch.stack([s[0] for s in statistics]), torch.stack(
+                [s[1] for s in statistics]
+            )
+        return self._sufficient_statistics(node_mask_sorted, lchoose2, durations)
+
+    @staticmethod
+    def _sufficient_statistics(node_mask_sorted, lchoose2, durations):
         groups = torch.tensor_split(
             lchoose2 * durations, torch.where(node_mask_sorted == 0)[0]
         )
